@@ -8,6 +8,8 @@ import (
 	"sort"
 	"strconv"
 	"strings"
+	"sync"
+	"sync/atomic"
 
 	"github.com/bufbuild/protocompile"
 	"github.com/bufbuild/protocompile/linker"
@@ -212,7 +214,7 @@ type attrsMethodKey struct {
 	name string
 }
 
-var attrsMethodIndex = map[attrsMethodKey]int{}
+var attrsMethodIndex sync.Map // attrsMethodKey -> int
 
 // attrsMethod: reflect.Value.MethodByName with the lookup cached per concrete type.
 func attrsMethod(recv reflect.Value, name string) reflect.Value {
@@ -226,13 +228,14 @@ func attrsMethod(recv reflect.Value, name string) reflect.Value {
 		recv = recv.Elem()
 	}
 	k := attrsMethodKey{recv.Type(), name}
-	i, ok := attrsMethodIndex[k]
-	if !ok {
-		i = -1
+	i := -1
+	if v, ok := attrsMethodIndex.Load(k); ok {
+		i = v.(int)
+	} else {
 		if m, found := recv.Type().MethodByName(name); found {
 			i = m.Index
 		}
-		attrsMethodIndex[k] = i
+		attrsMethodIndex.Store(k, i)
 	}
 	if i < 0 {
 		return reflect.Value{}
@@ -1205,7 +1208,7 @@ func attrsSinkCases() [][]string {
 // attrsCaseCustom: a case whose element ops are followed by the custom-feature ops.
 func attrsCaseCustom(srcs map[string]string, order []string) []string {
 	c := attrsCase(srcs, order, false)
-	ge := &attrsEngine{}
+	ge := &attrsEngine{noConc: true}
 	ge.Reset()
 	for _, p := range order {
 		ge.Exec("src " + p + " " + attrsHexS(srcs[p]))
@@ -1248,4 +1251,126 @@ func attrsRawDefaultCases(r *Rand, n int) [][]string {
 		add("bytes", sb.String())
 	}
 	return cases
+}
+
+// ---------------------------------------------------------------- concurrent first observation
+
+// attrsConcWorkers: goroutines that make the first observation of a freshly compiled file together.
+const attrsConcWorkers = 4
+
+// concFirstObservation lets attrsConcWorkers goroutines make the FIRST observation of the linker's
+// descriptors at the same time: nothing has called a view method of e.lall yet (the runtime's descriptors
+// were built from the protos alone). The elements are taken in chunks - a message, enum, service or file
+// with the fields / oneofs / values / methods that follow it - and every chunk goes through
+// ConcFirst(attrsConcWorkers, ...): each goroutine runs the whole view walk of the chunk (attrs_view.go)
+// plus the resolved-feature vector of each element. Every goroutine must get the lone caller's answer;
+// the sequential ops that follow see any permanent damage. It returns "" or a description
+// "conc-differs <element> <answer a> | <answer b>".
+func (e *attrsEngine) concFirstObservation(sample int) string {
+	if e.status != "ok" {
+		return ""
+	}
+	paths := make([]string, 0, len(e.rfiles))
+	for p := range e.rfiles {
+		paths = append(paths, p)
+	}
+	sort.Strings(paths)
+	// everything the walk shares must exist before the goroutines start (runtime side only)
+	var chunks [][]string
+	for _, p := range paths {
+		for _, n := range e.walkAllCached(e.rfiles[p]) {
+			isHead := strings.HasPrefix(n, "@")
+			if !isHead {
+				switch e.findR(n).(type) {
+				case protoreflect.MessageDescriptor, protoreflect.EnumDescriptor, protoreflect.ServiceDescriptor:
+					isHead = true
+				}
+			}
+			if isHead || len(chunks) == 0 {
+				chunks = append(chunks, nil)
+			}
+			chunks[len(chunks)-1] = append(chunks[len(chunks)-1], n)
+		}
+	}
+	for ci, chunk := range chunks {
+		if sample > 1 && ci%sample != 0 && !e.chunkHasRequired(chunk) {
+			continue
+		}
+		var slot atomic.Int32
+		var outs [attrsConcWorkers][]string
+		res := ConcFirst(attrsConcWorkers, func() string {
+			me := int(slot.Add(1)-1) % attrsConcWorkers
+			out := make([]string, 0, len(chunk))
+			for _, n := range chunk {
+				a := e.viewAnswer(n)
+				if !strings.HasPrefix(n, "@") {
+					if l := e.findL(n); l != nil {
+						a += " rf=" + attrsResolved(l)
+					}
+				}
+				out = append(out, a)
+			}
+			outs[me] = out
+			return strings.Join(out, "\n")
+		})
+		if strings.HasPrefix(res, "panic ") {
+			return "conc-differs " + chunk[0] + " " + attrsTrim(res)
+		}
+		if strings.HasPrefix(res, "conc-differs ") {
+			for k := range chunk {
+				for w := 1; w < attrsConcWorkers; w++ {
+					if k < len(outs[0]) && k < len(outs[w]) && outs[0][k] != outs[w][k] {
+						return "conc-differs " + chunk[k] + " " + attrsTrim(outs[0][k]) + " | " + attrsTrim(outs[w][k])
+					}
+				}
+			}
+			return "conc-differs " + chunk[0] + " " + attrsTrim(res)
+		}
+	}
+	return ""
+}
+
+// chunkHasRequired: the chunk is a message with a required field (by label or LEGACY_REQUIRED) - read off
+// the runtime's descriptor.
+func (e *attrsEngine) chunkHasRequired(chunk []string) bool {
+	if len(chunk) == 0 || strings.HasPrefix(chunk[0], "@") {
+		return false
+	}
+	if m, ok := e.findR(chunk[0]).(protoreflect.MessageDescriptor); ok {
+		return m.RequiredNumbers().Len() > 0
+	}
+	return false
+}
+
+// attrsRequiredCases: messages with many required fields (proto2 `required`, editions LEGACY_REQUIRED, mixed
+// with optional / repeated / oneof members), many messages per file: RequiredNumbers() and whatever else is
+// derived from the field list, first observed by several goroutines at once (see concFirstObservation).
+func attrsRequiredCases(nMsgs int) [][]string {
+	var p2, ed strings.Builder
+	p2.WriteString("syntax = \"proto2\";\npackage rq2;\n")
+	ed.WriteString("edition = \"2023\";\npackage rqe;\n")
+	for i := 0; i < nMsgs; i++ {
+		p2.WriteString(fmt.Sprintf("message R%d {\n", i))
+		ed.WriteString(fmt.Sprintf("message R%d {\n", i))
+		for j := 1; j <= 14; j++ {
+			switch {
+			case j%7 == 3:
+				p2.WriteString(fmt.Sprintf("  optional int32 o%d = %d;\n", j, j+20*(i%3)))
+				ed.WriteString(fmt.Sprintf("  int32 o%d = %d;\n", j, j+20*(i%3)))
+			case j%7 == 5:
+				p2.WriteString(fmt.Sprintf("  repeated string r%d = %d;\n", j, j+20*(i%3)))
+				ed.WriteString(fmt.Sprintf("  repeated string r%d = %d;\n", j, j+20*(i%3)))
+			default:
+				typ := []string{"int32", "string", "bytes", "R0", "double"}[(i+j)%5]
+				p2.WriteString(fmt.Sprintf("  required %s q%d = %d;\n", typ, j, j+20*(i%3)))
+				ed.WriteString(fmt.Sprintf("  %s q%d = %d [features.field_presence = LEGACY_REQUIRED];\n", typ, j, j+20*(i%3)))
+			}
+		}
+		p2.WriteString("  oneof o { int32 a = 100; string b = 101; }\n}\n")
+		ed.WriteString("  oneof o { int32 a = 100; string b = 101; }\n}\n")
+	}
+	return [][]string{
+		attrsCase(map[string]string{"rq2.proto": p2.String()}, []string{"rq2.proto"}, false),
+		attrsCase(map[string]string{"rqe.proto": ed.String()}, []string{"rqe.proto"}, false),
+	}
 }
